@@ -173,7 +173,11 @@ def rewrite(rng, root, kinds=None, p_site=0.5):
                                    "#\x85%define q r", "# x\ry z",
                                    "#\x1c(", "# p\u2029%include nosuch",
                                    "#\x1d\x1e</>", "#",
-                                   "# C:\\old\\", "#\\"]))
+                                   "# C:\\old\\", "#\\",
+                                   # editor mode lines are comments too
+                                   "# -*- coding: latin-1 -*-",
+                                   "# vim: set fileencoding=cp1252 :",
+                                   "#!coding=utf-16"]))
         if "trailing" in kinds and rng.random() < p_site:
             # "\r" makes the line end CRLF; the others are whitespace too
             body += rng.choice([" ", "\t", "  \t ", "\r", " \r", "\x0c",
